@@ -2,7 +2,9 @@
 import numpy as np
 from hypothesis import strategies as st
 
-from vt import phylo
+import torch
+
+from vt import phylo, tt
 from vt.cmp import arr
 from vt.gen.trees import all_ins
 from vt.runner import Res, Sub
@@ -64,8 +66,12 @@ def classify(c):
 def body(c):
     nontrivial, key, labels, tags = classify(c)
     res = Res(nontrivial=nontrivial, key=key, labels=labels, tags=tags)
-    dic = phylo.build_like(c)
-    v = arr(dic["like"]())
+    if c.get("f32default"):
+        res.labels = res.labels + ("default_dtype_float32",)
+        res.key = key + ("f32default",)
+    with tt.default_dtype(torch.float32 if c.get("f32default") else torch.float64):
+        dic = phylo.build_like(c)
+        v = arr(dic["like"]())
     ref = phylo.reference(c, dic)
     if v.size != 1 or not np.isfinite(v).all():
         return res.fail("nonfinite", {"value": v.tolist(), "reference": ref})
